@@ -114,7 +114,9 @@ STRUCT_TEXTS = ['{"a":1,"a":2}', '{"a":1,"b":2,"a":3}', '{"b":1,"a":2}', '{"__pr
 ARG_EXPRS = ["", "1", "null", "true", "undefined", "[1]", "[1,2]", "{}", '"1", function (k, v) { return v }',
              '"[1,2]", function (k, v) { return typeof v === "number" ? v * 2 : v }',
              '"{\\"a\\":1,\\"b\\":2}", function (k, v) { if (k === "a") { return undefined } return v }',
-             '"[1,[2]]", function (k, v) { __out(k); return v }', '"1", null', '"1", 5', "1.5", "-0", '" 1 "', '"1", undefined']
+             '"[1,[2]]", function (k, v) { __out(k); return v }', '"1", null', '"1", 5', "1.5", "-0", '" 1 "', '"1", undefined',
+             '(function () { var s = "1"; for (var i = 0; i < 13; i++) { s = s + s } return s })()',
+             '(function () { var s = "[[[["; for (var i = 0; i < 8; i++) { s = s + s } return s })()']
 
 
 _short = {}
